@@ -131,6 +131,22 @@ theorem policyChain_tgt (X : NetPol) : ∀ r ∈ policyChain X, r.tgt = Tgt.acce
     obtain ⟨x, _, hx⟩ := h; exact chainRules_tgt _ _ _ _ _ r hx
   · cases h
 
+/-- the current source never emits a rule iptables refuses for its number of ports -/
+theorem overLimit_false (ps : List NetPol) : overLimit ps = false := by
+  unfold overLimit
+  rw [List.any_eq_false]
+  intro p _
+  simp only [List.any_eq_true, not_exists, not_and, Bool.not_eq_true', Bool.not_eq_false]
+  intro r hr
+  simp only [policyChain, List.mem_append] at hr
+  rcases hr with h | h <;> split at h
+  · simp only [ingressRules, List.mem_flatMap, chainRules] at h
+    obtain ⟨x, _, s, _, d, _, h⟩ := h; exact tplRules_portsOK _ _ _ _ _ r h
+  · cases h
+  · simp only [egressRules, List.mem_flatMap, chainRules] at h
+    obtain ⟨x, _, s, _, d, _, h⟩ := h; exact tplRules_portsOK _ _ _ _ _ r h
+  · cases h
+
 /-- GLX-PLCY-<hash of X>: accept iff some rule of the compiled policy matches, otherwise return -/
 theorem evalChain_plcy (c : Cluster) {ps : List NetPol} (node : String) (hn : (ps.map (·.hash)).Nodup) {X : NetPol}
     (hX : X ∈ ps) (sets : List IpSet) (f : Flow) (n : Nat) :
@@ -533,12 +549,8 @@ theorem walk_of_base {c : Cluster} {ps : List NetPol} {node : String} (f : Flow)
 theorem walk_fragment {c : Cluster} {ps : List NetPol} {node : String} {f : Flow}
     (h : inFragment c ps node f = true) :
     walk (compileSets c ps) (compileTable c ps node) f = Verdict.accept ↔ k8sAllowsOn node c ps f = true := by
-  have hlim : overLimit ps = false := by
-    simp only [inFragment, Bool.and_eq_true, Bool.not_eq_true'] at h; exact h.2
-  have hct : compileTable c ps node = compiledTable c ps node := by simp [compileTable, hlim]
+  have hct : compileTable c ps node = compiledTable c ps node := by simp [compileTable, overLimit_false ps]
   rw [hct]
-  have h : (wfCluster c ps && ps.all (polOK c) && oneDirection c ps node && flowOK c ps node f) = true := by
-    simp only [inFragment, Bool.and_eq_true, Bool.not_eq_true'] at h ⊢; exact h.1
   obtain ⟨F, hflow⟩ := frag_of h
   rw [k8sAllowsOn_parts]
   by_cases hact : activePods c ps node = []
